@@ -282,7 +282,7 @@ theorem nm_wsDrop {w0 w : World} (c : Nat) (h : NM w0 w) : NM w0 (wsDrop w c) :=
   try dsimp only
   split
   · nm_auto
-  · split <;> nm_auto
+  · split <;> (try split) <;> nm_auto
 
 theorem nm_appClose {w0 w : World} (sid : Nat) (discard : Bool) (h : NM w0 w) : NM w0 (appClose w sid discard) := by
   unfold appClose
